@@ -17,7 +17,7 @@ class Gen:
         self.funs = []          # (name, [param types], ret type)
         self.scopes = [dict()]
         self.enum = False
-        self.features = features or {"fun", "closure", "match", "for", "while", "list", "tuple", "enum", "break", "return"}
+        self.features = features or {"fun", "closure", "match", "for", "while", "list", "tuple", "enum", "break", "return", "shadow"}
         self.err_injected = 0
 
     # ---- helpers
